@@ -340,10 +340,21 @@ func buildPool() {
 			if len(e.Data) > 16*1024 || len(e.Data) == 0 {
 				continue
 			}
-			if _, ok := by[e.Format]; !ok {
-				fs = append(fs, e.Format)
+			// samples whose golden test runs without -d (format "probe", about
+			// half of the corpus) are bucketed by the directory of their decoder:
+			// as ONE bucket only its three smallest files were used
+			k := e.Format
+			if k == "probe" {
+				dir := filepath.Dir(e.Path)
+				for strings.HasSuffix(dir, "/testdata") || strings.Contains(filepath.Base(dir), "testdata") {
+					dir = filepath.Dir(dir)
+				}
+				k = "probe:" + filepath.Base(dir)
 			}
-			by[e.Format] = append(by[e.Format], e)
+			if _, ok := by[k]; !ok {
+				fs = append(fs, k)
+			}
+			by[k] = append(by[k], e)
 		}
 		sort.Strings(fs)
 		for _, f := range fs {
@@ -352,6 +363,13 @@ func buildPool() {
 			for i, e := range es {
 				if i >= 3 {
 					break
+				}
+				if strings.HasPrefix(f, "probe:") {
+					// (a probe decode tries many decoders: one file per bucket)
+					if i == 0 {
+						treeJobs = append(treeJobs, job{Path: e.Path, Format: e.Format, Kind: "tree"})
+					}
+					continue
 				}
 				treeJobs = append(treeJobs, job{Path: e.Path, Format: e.Format, Kind: "tree"})
 				if i == 0 {
@@ -669,11 +687,19 @@ func TestOptionLeak(t *testing.T) {
 	seen := map[string]bool{}
 	idx := 0
 	for _, fj := range treeJobs {
-		if fj.Format == "probe" || seen[fj.Format] || len(dataOf(fj.Path)) == 0 {
+		key := fj.Format
+		if key == "probe" {
+			dir := filepath.Dir(fj.Path)
+			for strings.HasSuffix(dir, "/testdata") || strings.Contains(filepath.Base(dir), "testdata") {
+				dir = filepath.Dir(dir)
+			}
+			key = "probe:" + filepath.Base(dir)
+		}
+		if seen[key] || len(dataOf(fj.Path)) == 0 {
 			continue
 		}
-		// the first (smallest) file of every format on its home format
-		seen[fj.Format] = true
+		// the first (smallest) file of every bucket on its own format
+		seen[key] = true
 		idx++
 		if !harness.Mine(idx) {
 			continue
